@@ -53,6 +53,13 @@ def _check_diag(letters, k, i0, causal, what, be='np'):
     # the circuit is a deterministic Clifford circuit: backward undoes forward
     circ.backward(out)
     C.expect_list(Bk.read_list(out), (letters[None, :], np.array([k])), '%s: backward(forward(P))' % what, 'diag-roundtrip')
+    # compiling the returned circuit does not change what it does
+    if hasattr(circ, 'compile') and N <= 70:
+        dup = circ.copy() if hasattr(circ, 'copy') else circ
+        dup.compile()
+        out2 = Bk.plist(letters[None, :], [k])
+        dup.forward(out2)
+        C.expect_list(Bk.read_list(out2), (ol, ok), '%s: the compiled copy of diagonalize(%s, i0=%d, causal=%s) acts differently from the circuit itself' % (what, ref.show(letters, k), i0, causal), 'diag-compiled')
 
 
 def f_diag_enum(case):
@@ -351,3 +358,26 @@ def st_state_history(be, hiN):
 
 FACETS.append(Facet('np/state-histories', f_state_history, strategy=lambda t: st_state_history('np', 4), examples={'quick': 500, 'thorough': 20000}, shards={'quick': 1, 'thorough': 4}))
 FACETS.append(Facet('torch/state-histories', f_state_history, strategy=lambda t: st_state_history('torch', 3), examples={'quick': 120, 'thorough': 4000}, backend='torch'))
+
+
+
+# ---- registers of 40..70 qubits: operators supported on the first / last qubits (rotation gates with NumPy labels >= 64 overlap only there)
+def f_diag_large(case):
+    N = case['N']
+    l = np.zeros(N, dtype=np.int64)
+    pool = [0, 1, N - 3, N - 2, N - 1]
+    for q, a in zip(pool, case['letters']):
+        l[q] = a
+    if not l.any():
+        l[N - 1] = 2
+    i0 = pool[case['i0'] % len(pool)]
+    causal = case['causal']
+    if causal and not l[i0:].any():
+        l[N - 1] = 1 + case['i0'] % 3
+    _check_diag(l, 2 * (case['i0'] % 2), i0, causal, 'large register')
+    return {'nt': int((l[N - 3:] != 0).sum()) >= 2, 'labels': ['N=%d' % N, 'causal' if causal else 'global']}
+
+
+FACETS.append(Facet('np/diagonalize-large-registers', f_diag_large, strategy=lambda t: st.fixed_dictionaries(
+    {'N': st.sampled_from([40, 64, 65, 66, 70]), 'letters': st.lists(st.integers(0, 3), min_size=5, max_size=5), 'i0': st.integers(0, 9), 'causal': st.booleans()}),
+    examples={'quick': 150, 'thorough': 5000}, shards={'quick': 1, 'thorough': 4}))
